@@ -56,7 +56,7 @@ ASSUMPTIONS = [
     "comments are compared modulo trailing blanks / carriage return",
     "for reset_index=True the root is the first row (the documented layout)",
 ]
-REQUIRED = ["grammar_reads", "rows_compared", "comments_compared", "ignored_field_warnings",
+REQUIRED = ["second_population_reads_after_edits", "grammar_reads", "rows_compared", "comments_compared", "ignored_field_warnings",
             "texts_with_the_writers_column_banner", "texts_with_block_sized_row_counts",
             "population_files_with_undecodable_bytes", "separators_other_than_blank_and_tab",
             "extra_cols_as_one_shot_iterables", "options_given_by_position",
@@ -609,6 +609,35 @@ def check_population(ctx, case, tmp):
                 return ctx.violation("row-count", f"Population[{i}] ({name}) has "
                                                   f"{t.number_of_nodes()} nodes for {ns[name]} rows",
                                      case)
+        # a second population over the same directory, used in turns with the first: trees of the
+        # first are edited in place by their owner, the second still returns what the rows say
+        from swcgeom.core import swc_utils as su_
+
+        try:
+            pop2 = Population.from_swc(d)
+        except Exception:
+            return
+        for i in range(len(pop)):
+            path = pop.trees.swcs[i]
+            if os.path.basename(path) == f"t{bad}.swc":
+                continue
+            t = pop[i]
+            t.node(0).x = float(t.x()[0]) + 1000.0
+            t.node(t.number_of_nodes() - 1).type = 7
+            t.comments.append("edited by its owner")
+            t2 = pop2[i]
+            df, cm = su_.read_swc(path)
+            ctx.count("second_population_reads_after_edits")
+            if t2 is t or t2.number_of_nodes() != len(df) or \
+                    not np.array_equal(t2.x(), df["x"].to_numpy().astype(np.float32)) or \
+                    not np.array_equal(t2.type(), df["type"].to_numpy()) or \
+                    "edited by its owner" in t2.comments:
+                return ctx.violation("field-value",
+                                     f"a second population over the same directory returned, for "
+                                     f"{os.path.basename(path)}, a tree that differs from the file's "
+                                     f"rows after the first population's tree was edited in place "
+                                     f"(x[0]={float(t2.x()[0])!r}, file says "
+                                     f"{float(df['x'].to_numpy()[0])!r})", case)
 
 
 KINDS = {"grammar": check_grammar, "fault": check_fault, "bytes": check_bytes, "sort": check_sort,
